@@ -114,6 +114,7 @@ func RandomSpec(r *sim.Rand) DocSpec {
 	sp.StdWidths = on(density / 2)
 	sp.BlankPages = on(density / 2)
 	sp.Headings = on(density)
+	sp.Superscripts = on(density)
 	return sp
 }
 
@@ -177,6 +178,7 @@ func (sp DocSpec) Features() []string {
 	add(sp.TextOps == 1, "textops=TJ")
 	add(sp.TextOps >= 2, "textops=mixed")
 	add(sp.FormXObj, "form-xobject")
+	add(sp.Superscripts, "superscripts")
 	add(sp.FormXObj && sp.FormNest > 0, "form-nest")
 	add(sp.StdWidths, "std-widths")
 	add(sp.BlankPages, "blank-pages")
@@ -565,6 +567,13 @@ func (sp DocSpec) Shrinks() []DocSpec {
 		return true
 	})
 	try(func(s *DocSpec) bool {
+		if !s.Superscripts {
+			return false
+		}
+		s.Superscripts = false
+		return true
+	})
+	try(func(s *DocSpec) bool {
 		if s.FormNest == 0 {
 			return false
 		}
@@ -710,6 +719,9 @@ func SpecWithFeatures(features []string) (DocSpec, bool) {
 			sp.Pages = 4
 		case f == "headings":
 			sp.Headings = true
+		case f == "superscripts":
+			sp.Superscripts = true
+			sp.Lines = 5
 		case f == "form-xobject":
 			sp.FormXObj = true
 			sp.Lines = 4
@@ -852,6 +864,8 @@ func (sp DocSpec) Without(f string) DocSpec {
 		c.BlankPages = false
 	case f == "headings":
 		c.Headings = false
+	case f == "superscripts":
+		c.Superscripts = false
 	case f == "form-xobject":
 		c.FormXObj = false
 		c.FormNest = 0
